@@ -359,8 +359,8 @@ struct Hist {
       double c[32];
       if (inf.cls == C_MUT_E) {
         slot = op.a;
-        vt->get_elem(gc.st, slot, 0, c);
-        vt->set_elem(gc.st, slot, 1, c);   // keep view buffer in step with the owning object
+        vt->get_elem(gc.st, slot, op.ka == K_MAP ? 1 : 0, c);
+        vt->set_elem(gc.st, slot, 2, c);   // keep view buffer and owning object in step
       } else {
         slot = s.dst >= 0 ? s.dst : E_S1;
         for (int i = 0; i < vt->rep; ++i) c[i] = out.v[i];
@@ -381,7 +381,7 @@ struct Hist {
     } else if (vk == VK_TAN) {
       double c[32];
       int slot;
-      if (inf.cls == C_MUT_T) { slot = op.a; vt->get_tan(gc.st, slot, 0, c); vt->set_tan(gc.st, slot, 1, c); }
+      if (inf.cls == C_MUT_T) { slot = op.a; vt->get_tan(gc.st, slot, op.ka == K_MAP ? 1 : 0, c); vt->set_tan(gc.st, slot, 2, c); }
       else { slot = s.dst >= 0 ? s.dst : T_S1; for (int i = 0; i < vt->dof; ++i) c[i] = out.v[i]; vt->set_tan(gc.st, slot, 2, c); }
       if (!c03 && !all_finite(c, vt->dof)) {
         res.fail("finite", cls("finite", vt, op.op), std::string("non-finite tangent from ") + inf.name + " in " + vt->name, idx);
@@ -595,7 +595,17 @@ struct Hist {
     } else {
       return push(rejected_call(g));
     }
-    s.op.ka = K_OWN; s.op.kb = K_OWN;
+    // operands through owning objects or views of the user's buffers (a third of the steps)
+    {
+      const OpInfo& inf = op_info(s.op.op);
+      s.op.ka = K_OWN; s.op.kb = K_OWN;
+      if (rng.chance(0.33)) {
+        s.op.ka = (uint8_t)((inf.cls == C_MUT_E || inf.cls == C_MUT_T) ? K_MAP : (rng.chance(0.5) ? K_MAP : K_CMAP));
+        s.op.kb = (uint8_t)rng.below(3);
+        if (inf.cls == C_TAN && inf.arg2 == A_ELEM) s.op.kb = K_OWN;
+        res.add("n.steps_through_views", 1);
+      }
+    }
     return push(s);
   }
 
